@@ -386,6 +386,25 @@ func (x *run) construct(path string, b [20]byte, zb, led string) (a common.Addre
 				}
 			}
 		}
+	case "txsender":
+		// the sender of a signed Quai transaction, asked for with a signer of THIS node's location after the per-transaction sender
+		// cache was (half of the time) filled by tx.Hash(), which derives the sender under the transaction's own chain id and a
+		// throw-away location {0,0}: the cached 20 bytes must be classified for the location asked for
+		ks := x.e.keys[zb+"/"+led]
+		k := ks[r.Intn(len(ks))]
+		copy(got[:], keyAddr(k))
+		to := common.Bytes20ToAddress(b, common.Location{0, 0})
+		var tx *types.Transaction
+		tx, err = types.SignTx(types.NewTx(&types.QuaiTx{ChainID: big.NewInt(9), Nonce: r.Uint64(), GasPrice: big.NewInt(1), Gas: 21000, To: &to, Value: big.NewInt(1), Data: []byte{}}),
+			types.NewSigner(big.NewInt(9), common.Location{0, 0}), k)
+		if err == nil {
+			if r.Intn(2) == 0 {
+				tx.Hash()
+			} else if r.Intn(2) == 0 {
+				types.Sender(types.NewSigner(big.NewInt(9), common.Location{1, 1}), tx)
+			}
+			a, err = types.Sender(types.NewSigner(big.NewInt(9), loc), tx)
+		}
 	case "pubkey":
 		ks := x.e.keys[zb+"/"+led]
 		k := ks[r.Intn(len(ks))]
@@ -695,7 +714,7 @@ func runBeh(e *env, beh []Rec, bi, inst int, seed int64, res *result) {
 		failed = kind != "classification" && kind != "qiout"
 		key := strings.Join([]string{kind, x.node, path, class, exp, got, strings.Split(detail, " addr=")[0]}, "|")
 		if kind == "qiout" {
-			key = strings.Join([]string{kind, path, exp, got}, "|")
+			key = strings.Join([]string{kind, path, exp, got, strings.Split(detail, " ")[0]}, "|")
 		}
 		res.seen[key]++
 		if res.seen[key] <= 2 {
@@ -811,7 +830,11 @@ func runBeh(e *env, beh []Rec, bi, inst int, seed int64, res *result) {
 				b = full[1:]
 			case 21:
 				full := instClassSlice(r, s.Zb, s.Led)
-				b = append([]byte{byte(r.Intn(256))}, full...)
+				pre := byte(r.Intn(256))
+				if own := map[string]string{"zoneA": "z00", "zoneB": "z01"}[x.node]; own != "" && r.Intn(2) == 0 {
+					pre = zoneByte(r, own) // the node's own zone byte in front of (possibly foreign) 20 bytes
+				}
+				b = append([]byte{pre}, full...)
 			case 0:
 				b = []byte{}
 			}
@@ -819,7 +842,17 @@ func runBeh(e *env, beh []Rec, bi, inst int, seed int64, res *result) {
 			res.evals++
 			res.classes[fmt.Sprintf("qiout|%s|%s|%s|len%d|%s|->%s", x.node, s.Zb, s.Led, s.Len, s.Mode, exp)] = true
 			if got != exp {
-				x.fail("qiout", fmt.Sprintf("len%d", s.Len), s.Zb+"/"+s.Led+"/"+s.Mode, exp, got, fmt.Sprintf("%s output address %x", detail, b))
+				// an over-long address is accepted (known finding); what the node then does with it must at least follow the zone and
+				// ledger of the 20 bytes it keeps (the cropped address every decoder reads), never the extra byte in front
+				cropped := "n/a"
+				if own := map[string]string{"zoneA": "z00", "zoneB": "z01"}[x.node]; s.Len == 21 && s.Led == "qi" && own != "" {
+					want := "etx"
+					if s.Zb == own {
+						want = "utxo"
+					}
+					cropped = fmt.Sprint(got == want)
+				}
+				x.fail("qiout", fmt.Sprintf("len%d", s.Len), s.Zb+"/"+s.Led+"/"+s.Mode, exp, got, fmt.Sprintf("follows-cropped=%s %s output address %x", cropped, detail, b))
 			}
 		default:
 			x.fail("driver", "", "", "", "", "unknown op "+s.Op)
